@@ -24,6 +24,12 @@ func runC20(c *Ctx) {
 	R.Rule("C20.R6", "the allow-list filter is a fixed point: each incoming attribute is kept at most once per pass (a duplicated attribute is duplicated again by the next pass)")
 	R.Rule("C20.R7", "validURL parses what it was given: the argument of url.Parse derives from the parameter only through TrimSpace, slicing/concatenation and CR/LF removal — no decoding or re-casing before the parse")
 	parsesWhatItWasGiven(c, "C20.R7")
+	R.Rule("C20.R8", "the second pass takes the decisions the first one took (= C13.R4, cited): map iteration order cannot reach the output — where the rules applied to a tag depend on the order in which a policy table happens to be walked, the second pass can judge the very same tag by other rules than the first and remove what the first one kept")
+	{
+		sub := &Ctx{P: c.P, R: newScratchReport(), Tier: c.Tier, VerifDir: c.VerifDir}
+		E8, S8 := c13SharedWrites(sub, "C13.R1", "", true)
+		R.Cite(map[string]string{"C13.R4": "C20.R8"}, func() { c13MapOrder(c, E8, S8) })
+	}
 	R.Rule("C20.R3", "single serialiser: every destination write of sanitize has payload Token.String() (or a space, or raw data under allowUnsafe) — the escaping that the tokenizer's unescaping inverts; written once per token is C06.R2")
 	R.Assume(TrustGo, "idempotence of net/url normalisation and of the x/net/html decode/escape round trip is NOT decided", "the del/ins cite exception of UGCPolicy is outside the claimed clause")
 	fn := c.P.Func(load.ModPath, "(*Policy).sanitizeAttrs")
